@@ -65,6 +65,7 @@ def expected_raises_zeta(i, j, k):
 class Impl:
     def __init__(self):
         self.expr = {}   # key -> sympy expression (after doit)
+        self.raw = {}    # key -> sympy expression exactly as returned (Kallen nodes unevaluated)
         self.err = {}    # key -> exception class name
         for i in range(4):
             for j in range(4):
@@ -80,6 +81,7 @@ class Impl:
     def _call(self, key, fn, *idx):
         try:
             _s, e = fn(*idx)
+            self.raw[key] = sp.sympify(e)
             self.expr[key] = sp.sympify(e).doit()
         except Exception as exc:  # noqa: BLE001
             self.err[key] = type(exc).__name__
@@ -333,7 +335,10 @@ def gen_case(rng, idx):
             E[n_] = energy_above(rng, sum(x * x for x in vs[n_]))
     vs = [rotate(R, v) for v in vs]
     mom = {perm[n_]: [E[n_]] + vs[n_] for n_ in range(3)}
-    return {"kind": kind, "p": {str(k): [str(x) for x in mom[k]] for k in (1, 2, 3)}}
+    # routes B/C (masses substituted before doit) on every early event; later only where the masses are special
+    routes = "ABC" if idx < 135 or kind in ("two_equal", "three_equal", "all_massless", "massless") else "A"
+    return {"kind": kind, "routes": routes,
+            "p": {str(k): [str(x) for x in mom[k]] for k in (1, 2, 3)}}
 
 
 # ---------------------------------------------------------------- checking one event
@@ -346,6 +351,60 @@ def float_tol(den_abs, m0):
     <= dL * m0^4*16 / D.  We use  tol = 4096*eps*m0^4/D * (1 + 16*m0^4/D)  which dominates both."""
     s = 4096 * EPS * m0 ** 4 / den_abs
     return s * (1 + 16 * m0 ** 4 / den_abs)
+
+
+TOL_BC = mp.mpf(10) ** -15  # routes B/C are evaluated by SymPy's evalf(50); an arccos whose argument is exactly
+# +-1 but not recognised symbolically is only accurate to ~sqrt(1e-50); formula errors are macroscopic (>1e-6)
+
+
+def sym_rational(q):
+    return sp.Rational(q.numerator, q.denominator)
+
+
+def sym_mass(q):
+    """exact SymPy value of sqrt(q) for a non-negative Fraction q (its square is the Rational q again)"""
+    r = isqrt_frac(q)
+    return sym_rational(r) if r is not None else sp.sqrt(sym_rational(q))
+
+
+def to_mp(v):
+    v = sp.N(v, 50)
+    if v.is_real is not True:
+        return None
+    return v._to_mpmath(200)
+
+
+def routes_bc(impl, m0, msq, ssq, exp, fails):
+    """Route B: substitute the particle masses m_0..m_3 into the UNEVALUATED expression, then doit(), then
+    the Mandelstam masses.  Route C: substitute the whole event, then doit().  Both compared with the
+    four-momentum evaluator.  Equal masses give structurally equal Kallen arguments on these routes."""
+    fixed = {SYMS[0]: sym_rational(m0), SYMS[1]: sym_mass(msq[1]), SYMS[2]: sym_mass(msq[2]),
+             SYMS[3]: sym_mass(msq[3])}
+    sig = {SYMS[4]: sym_mass(ssq["m_12"]), SYMS[5]: sym_mass(ssq["m_13"]), SYMS[6]: sym_mass(ssq["m_23"])}
+    both = {**fixed, **sig}
+    cache = {}
+    n = 0
+    for key, raw in impl.raw.items():
+        if key not in exp or raw == 0:
+            continue
+        if raw not in cache:
+            try:
+                vb = to_mp(raw.xreplace(fixed).doit().xreplace(sig))
+                vc = to_mp(raw.xreplace(both).doit())
+            except ZeroDivisionError:
+                vb = vc = None
+            cache[raw] = (vb, vc)
+            n += 2
+        for route, v in zip("BC", cache[raw]):
+            if v is None:
+                fails.append((f"route{route}_undefined", f"{key}: route {route} (masses substituted before doit) gives a "
+                                                         f"non-real / undefined value"))
+            elif abs(v - exp[key]) > TOL_BC:
+                what = {"scat": "scattering", "that": "theta_hat", "zeta": "zeta"}[key[0]]
+                fails.append((f"route{route}_{what}_geometric",
+                              f"{key}: route {route} ({'particle masses' if route == 'B' else 'whole event'} substituted "
+                              f"before doit) gives {mp.nstr(v, 20)} but four-momentum evaluator {mp.nstr(exp[key], 20)}"))
+    return n
 
 
 def check_event(impl, case):
@@ -420,6 +479,8 @@ def check_event(impl, case):
                 sig = {"scat": "scattering_geometric", "that": "theta_hat_geometric", "zeta": "zeta_geometric"}[key[0]]
                 fails.append((sig, f"{key}: implementation {mp.nstr(val, 25)} but four-momentum evaluator "
                                    f"{mp.nstr(exp[key], 25)}"))
+    if "B" in case.get("routes", "A"):
+        n_eval += routes_bc(impl, m0, msq, ssq, exp, fails)
     # identities on the implementation values
     for i in (1, 2, 3):
         for j in (1, 2, 3):
